@@ -23,7 +23,7 @@ CLAIMS = {
     "C03": (
         "other",
         "constant-table extraction from MIR (variant->constant matches, string-match chains, closure capture resolution) and writer/reader table comparison",
-        "Round-trip equality of arbitrary values is value-level and not decided. Decided is the necessary clause that the writer's and the reader's tables agree: the BTOR2 keyword relation is the same bijection on both sides and covers all 70 variants (incl. the token translation tables), the constant validators accept exactly the scanners' character classes, AIGER symbol prefixes/targets/index limits agree in both files, the varint reader accepts every length the writer emits, header field order and optional tail, latch reset forms, DIMACS framing words. R2 is position-sensitive where the validator is a chars() loop: the validator's automaton (with its boolean flag states) must be included in the language the scanner consumes. R4b: the varint writer's continuation-bit protocol. R10: free text (symbol names, comments, constants) is handed out verbatim - identity conversions only on what advance_with_buf returns, and only the terminator byte is cut off. R5b: only a suffix of zero counts is left out of the AIGER header (zero tests decide from the back). R11: the whole-file AIGER writers work through the circuit's fields in the order in which the parsers fill them, and every header count is taken from the field of the same name. R12: fields of a struct or variant are written in the order in which they are parsed (token-call order vs. emitting-call order, per struct/variant). R13: binary and gates - writer and reader chain the two deltas the same way and step the running code by 2. R14: BTOR2 placeholders (constants, justice conditions, symbol) are pointed at the buffer the parser filled for them. R15 (shared with C10-R1): per-item buffers are cleared before they are filled. R16: text writers never emit two numbers (or a number and a constant starting with a digit, like the terminating 0) back to back on any path (forward dataflow over each writer). R17: the DIMACS parsers hand out the header as parse_header read it, whatever the configuration. R13b (shared with C06-R6): the binary reader refuses a delta only when it is larger than its reference code - delta == code is the constant 0 as a gate input, which the writer emits.",
+        "Round-trip equality of arbitrary values is value-level and not decided. Decided is the necessary clause that the writer's and the reader's tables agree: the BTOR2 keyword relation is the same bijection on both sides and covers all 70 variants (incl. the token translation tables), the constant validators accept exactly the scanners' character classes, AIGER symbol prefixes/targets/index limits agree in both files, the varint reader accepts every length the writer emits, header field order and optional tail, latch reset forms, DIMACS framing words. R2 is position-sensitive where the validator is a chars() loop: the validator's automaton (with its boolean flag states) must be included in the language the scanner consumes. R4b: the varint writer's continuation-bit protocol. R10: free text (symbol names, comments, constants) is handed out verbatim - identity conversions only on what advance_with_buf returns, and only the terminator byte is cut off. R5b: only a suffix of zero counts is left out of the AIGER header (zero tests decide from the back). R11: the whole-file AIGER writers work through the circuit's fields in the order in which the parsers fill them, and every header count is taken from the field of the same name. R12: fields of a struct or variant are written in the order in which they are parsed (token-call order vs. emitting-call order, per struct/variant). R13: binary and gates - writer and reader chain the two deltas the same way and step the running code by 2. R14: BTOR2 placeholders (constants, justice conditions, symbol) are pointed at the buffer the parser filled for them. R15 (shared with C10-R1): per-item buffers are cleared before they are filled. R16: text writers never emit two numbers (or a number and a constant starting with a digit, like the terminating 0) back to back on any path (forward dataflow over each writer). R17: the DIMACS parsers hand out the header as parse_header read it, whatever the configuration. R13b (shared with C06-R6): the binary reader refuses a delta only when it is larger than its reference code - delta == code is the constant 0 as a gate input, which the writer emits. R18 (shared with C13-R3/R4): numbers of every length the writers emit are scanned in full at any look-ahead offset. R19 (shared with C01-R1): the parsers read the writers' output through look-ahead requests, never through whatever happens to be buffered.",
         "DESIGN.md §4 C03",
     ),
     "C04": (
@@ -35,37 +35,37 @@ CLAIMS = {
     "C05": (
         "other",
         "instance call-graph SCC analysis; taint analysis of declared numbers with guard-dominance discharge; allocation-size taint; loop progress rule; panic-site inventory with discharge classes",
-        "Decides: the workspace's instance call graph is acyclic (bounded stack); every overflow/division assert and every subtraction in parser-reachable code either has only measures of consumed input as operands or is discharged by a dominating guard, a bounded-result callee, or a listed bound; no allocation is sized by a declared number; every loop has a progress statement on every cycle; every panic-capable construct (unwrap, indexing, advance, explicit panic) is discharged by a class (scanned offsets, digits, pop-after-push, ...) or listed. Wall time, heap constants, allocator aborts and termination of Renumber::transfer on cyclic graphs are not decided. R7: a token function reports a match only after the cursor moved by a provably positive amount, so the parsers' loops over alternatives cannot spin. R2 also enumerates the integer methods of std that trap like the operators (abs, pow, neg, ...): none takes a declared number. R4: the listed reason for NonZeroU64::new(..).unwrap() is checked (digits parser unreachable from the edge on which the look-ahead primitive answered '0'); added assertions are discharged by an interval evaluator that knows dominating comparisons, return-value joins of workspace functions and byte classes. R4 also lists std functions with a hidden panic condition (String::truncate, Vec::remove, copy_from_slice, str slicing, ...): each use in parser-reachable code is reported. R8 (shared with C06-R1): range checks before lossy conversions, every lossy `as` cast listed with its bound. R4: a variable array or slice index needs a test against the length in front of the access. R2's table of believed reasons was reduced: indices found by scanning a slice are bounded by recomputing which slice was scanned and what it was cut to (rules/scanidx.py), differences in reader methods by affine execution with the methods summarised from their bodies; the premises of the remaining entries are decided by rules that run here too (R3d = C08-R8/R9 line state, R9 = C06-R4 AIGER header bounds).",
+        "Decides: the workspace's instance call graph is acyclic (bounded stack); every overflow/division assert and every subtraction in parser-reachable code either has only measures of consumed input as operands or is discharged by a dominating guard, a bounded-result callee, or a listed bound; no allocation is sized by a declared number; every loop has a progress statement on every cycle; every panic-capable construct (unwrap, indexing, advance, explicit panic) is discharged by a class (scanned offsets, digits, pop-after-push, ...) or listed. Wall time, heap constants, allocator aborts and termination of Renumber::transfer on cyclic graphs are not decided. R7: a token function reports a match only after the cursor moved by a provably positive amount, so the parsers' loops over alternatives cannot spin. R2 also enumerates the integer methods of std that trap like the operators (abs, pow, neg, ...): none takes a declared number. R4: the listed reason for NonZeroU64::new(..).unwrap() is checked (digits parser unreachable from the edge on which the look-ahead primitive answered '0'); added assertions are discharged by an interval evaluator that knows dominating comparisons, return-value joins of workspace functions and byte classes. R4 also lists std functions with a hidden panic condition (String::truncate, Vec::remove, copy_from_slice, str slicing, ...): each use in parser-reachable code is reported. R8 (shared with C06-R1): range checks before lossy conversions, every lossy `as` cast listed with its bound. R4: a variable array or slice index needs a test against the length in front of the access. R2's table of believed reasons was reduced: indices found by scanning a slice are bounded by recomputing which slice was scanned and what it was cut to (rules/scanidx.py), differences in reader methods by affine execution with the methods summarised from their bodies; the premises of the remaining entries are decided by rules that run here too (R3d = C08-R8/R9 line state, R9 = C06-R4 AIGER header bounds). R10 (= C13-R1/R1b): the digit scanners never hand out a wrapped value (premise of NonZero::new(..).unwrap()). R11: an advance by X + c (c a positive constant, scanner calls peeled down to their start offset) passes over bytes a look-ahead answered on the way. R12 (= C12-R5/R10): renumbering records every transferred literal and transfers every root (premise of the unwraps in renumber_aig and of the linear walk). R4 has a class index-counts-down (a counter that starts at the slice length and is decremented in front of the access).",
         "DESIGN.md §4 C05",
     ),
     "C06": (
         "other",
         "guard-dominance, def-use and control-dependence rules over MIR; affine path execution of the header bound chain; frozen oracle tables for defining positions and section counters",
-        "Numeric exactness of the decimal conversion is C13's subject. Decided: every limit the property names is installed from the right source and dominates every hand-out or narrowing: from_dimacs only behind (-limit..=limit).contains, from_code only on codes checked by lit/delta_code, lossy casts listed with their bound; DIMACS limits installed exactly when the header asks and consulted at clause attempt / clean end; AIGER max_lit = 2M+1 everywhere, defining positions, header remainder chain, section counters; inclusive operators; literal type maxima. R1 for loop variables: every assignment of the converted variable passes a range test before it can reach from_dimacs. R9 (shared with C13-R1b/R4): decimal scanning yields the exact value or None. R10: a justice literal is filed under property i only behind the test that property i holds fewer than its declared number, for the current i. R11: the declared variable count (the later literal limit) is parsed by token::var_count::<L> in all three DIMACS header parsers. R2 also: no other header count decides whether a limit is installed.",
+        "Numeric exactness of the decimal conversion is C13's subject. Decided: every limit the property names is installed from the right source and dominates every hand-out or narrowing: from_dimacs only behind (-limit..=limit).contains, from_code only on codes checked by lit/delta_code, lossy casts listed with their bound; DIMACS limits installed exactly when the header asks and consulted at clause attempt / clean end; AIGER max_lit = 2M+1 everywhere, defining positions, header remainder chain, section counters; inclusive operators; literal type maxima. R1 for loop variables: every assignment of the converted variable passes a range test before it can reach from_dimacs. R9 (shared with C13-R1b/R4): decimal scanning yields the exact value or None. R10: a justice literal is filed under property i only behind the test that property i holds fewer than its declared number, for the current i. R11: the declared variable count (the later literal limit) is parsed by token::var_count::<L> in all three DIMACS header parsers. R2 also: no other header count decides whether a limit is installed. R12: a number token contains at least one digit (consumed only after the scanner's end offset was found different from its start offset, decided by affine path execution through the && chains). R13: ignore_header is stored by its own setter only. R14 (= C05-R2 on flussab-aiger): sums of declared sizes cannot wrap.",
         "DESIGN.md §4 C06",
     ),
     "C07": (
         "other",
         "interprocedural typestate analysis over MIR (blank-normal form of the cursor, path-sensitive abstract interpretation with summaries); exact byte-class extraction for the end-of-word test; CFG loop / dominance rules and sibling cross-check for the statement dispatch",
-        "Equality of the values parsed from two renderings of one formula is a runtime relation and is not decided. Decided are the structural necessary conditions the layout freedoms rest on: (1) on every path from every cnf/wcnf/gcnf/solver-log entry point, a token parser that decides on the byte at the cursor is attempted only when the cursor cannot stand on a space or tab (everything consumed was consumed together with its trailing blanks, or skip_whitespace ran) - any amount of blanks between tokens, at line ends and at line starts; (2) a word ends exactly before space, tab, CR, LF or end of input; (3) in all three statement loops and header prologues comment lines and blank lines are alternatives whose success continues the loop, identically in the three siblings; (4) every required line end is `newline or end of input`; (5) inside a clause, and between weight/group and literals, the line-break-and-comments skipper is tried before an error is raised, and it loops over comments and newlines. LF/CRLF is text::newline's class (C16-R3); numeral spelling (leading zeros, -0) is value-level (C13). R7: a scan that starts at a constant offset K > 0 steps over examined bytes only - each matched against a byte other than a line feed on the way, nothing consumed in between. R8 (shared with C08-R1): errors for tokens on a continuation line are located from a mark set on that line. R9 (shared with C13-R1b/R3): the digit scanners pass over every digit of a numeral and report its exact value or overflow, however it is spelled.",
+        "Equality of the values parsed from two renderings of one formula is a runtime relation and is not decided. Decided are the structural necessary conditions the layout freedoms rest on: (1) on every path from every cnf/wcnf/gcnf/solver-log entry point, a token parser that decides on the byte at the cursor is attempted only when the cursor cannot stand on a space or tab (everything consumed was consumed together with its trailing blanks, or skip_whitespace ran) - any amount of blanks between tokens, at line ends and at line starts; (2) a word ends exactly before space, tab, CR, LF or end of input; (3) in all three statement loops and header prologues comment lines and blank lines are alternatives whose success continues the loop, identically in the three siblings; (4) every required line end is `newline or end of input`; (5) inside a clause, and between weight/group and literals, the line-break-and-comments skipper is tried before an error is raised, and it loops over comments and newlines. LF/CRLF is text::newline's class (C16-R3); numeral spelling (leading zeros, -0) is value-level (C13). R7: a scan that starts at a constant offset K > 0 steps over examined bytes only - each matched against a byte other than a line feed on the way, nothing consumed in between. R8 (shared with C08-R1): errors for tokens on a continuation line are located from a mark set on that line. R9 (shared with C13-R1b/R3): the digit scanners pass over every digit of a numeral and report its exact value or overflow, however it is spelled. R10: ignore_unknown_lines is stored by its own setter only. R4 accepts the explicit `match newline { Fallthrough => eof, parsed => parsed }` form of the line end.",
         "DESIGN.md §13",
     ),
     "C08": (
         "other",
         "interprocedural typestate analysis (mark set/unset) plus per-function path rules with affine offset matching over MIR",
-        "Decides how the three pieces of location state are maintained on every path to an error: mark() only after set_mark() on the current line (all API roots, all call paths), line_start never ahead of the cursor when an error can be raised or a token returns, every matched-and-consumed line feed is counted, errors raised only at the cursor or the mark, column formula. It does not decide that the column lies on the token for errors raised at the cursor after partial look-ahead, nor message text. R3 also: a whole line skipped with next_newline is counted with the same offset, and the line start is only set after the cursor moved when it moved by exactly the line feed. R6: a token whose error is located by its caller (error type other than ParseError) commits the error with the cursor still on the token (typestate: no advance on a path returning Res(Err)). R7: once a token function consumed the token it marked, it raises errors at the mark, not at the cursor (typestate per token function). R8: rejected AIGER comment section - the advance behind the last line feed and the counted slice are evaluated to linear forms over n and p (rev().position = n-1-p, rposition = p) and must be p+1 and p. R9: the line bookkeeping itself by affine path execution - LineReader::new starts at line 1 at the reader's position, line_at_offset(k) adds one line starting at position + k, give_up_at hands its position on unchanged, and line / line_start are stored nowhere else (except the comment-section token decided by R8).",
+        "Decides how the three pieces of location state are maintained on every path to an error: mark() only after set_mark() on the current line (all API roots, all call paths), line_start never ahead of the cursor when an error can be raised or a token returns, every matched-and-consumed line feed is counted, errors raised only at the cursor or the mark, column formula. It does not decide that the column lies on the token for errors raised at the cursor after partial look-ahead, nor message text. R3 also: a whole line skipped with next_newline is counted with the same offset, and the line start is only set after the cursor moved when it moved by exactly the line feed. R6: a token whose error is located by its caller (error type other than ParseError) commits the error with the cursor still on the token (typestate: no advance on a path returning Res(Err)). R7: once a token function consumed the token it marked, it raises errors at the mark, not at the cursor (typestate per token function). R8: rejected AIGER comment section - the advance behind the last line feed and the counted slice are evaluated to linear forms over n and p (rev().position = n-1-p, rposition = p) and must be p+1 and p. R9: the line bookkeeping itself by affine path execution - LineReader::new starts at line 1 at the reader's position, line_at_offset(k) adds one line starting at position + k, give_up_at hands its position on unchanged, and line / line_start are stored nowhere else (except the comment-section token decided by R8). R10: a matched alternative is committed - no error site is reachable both from the edge on which a consuming token matched and from the edge on which it fell through, within one round of the enclosing loops.",
         "DESIGN.md §4 C08",
     ),
     "C09": (
         "other",
         "CFG/guard-dominance rules on the reader's refill code plus interprocedural typestate analysis (last look-ahead answer) over MIR",
-        "Decides: exactly one guarded Read::read call site whose only cycle is the Interrupted retry, refill reachable only when the buffer falls short, no bulk request in tokenizers; and on every path of every streaming API function the last look-ahead answer before a success return is the line terminator or end of input (no byte beyond the consumed text was asked for). The number of reads per item for a concrete source is not decided.",
+        "Decides: exactly one guarded Read::read call site whose only cycle is the Interrupted retry, refill reachable only when the buffer falls short, no bulk request in tokenizers; and on every path of every streaming API function the last look-ahead answer before a success return is the line terminator or end of input (no byte beyond the consumed text was asked for). The number of reads per item for a concrete source is not decided. R2's typestate follows the most recent look-ahead request (look-ahead events carry the tag of the answer they create; examining an older answer while a later request is outstanding does not count as the last look).",
         "DESIGN.md §4 C09",
     ),
     "C10": (
         "other",
         "dominance rules over MIR (buffer reset discipline on the def-level call graph; guard extraction on the reader's compaction code); interprocedural typestate analysis (line ends looked at beyond the cursor)",
-        "The heap bound itself is a runtime quantity and is not decided. Decided are necessary structural conditions: every growth of a buffer that outlives the call, in code reachable from a streaming parser entry point, is dominated by a clear() of the same buffer; compaction in request_more is decided on live operands, moves the window to offset 0 and the buffer only grows when window + chunk does not fit. (Allocation sized by declared counts is C05-R5.) Also decided (R3, typestate over all token functions and streaming entry points): no second line end is looked at before the cursor moved past the first, so the look-ahead window - which the reader must keep - stays within one line (plus the AIGER comment section, one item by definition). R4 (shared with C05-R5): no allocation or reservation sized by a declared number. R1 treats every growing method of every std collection alike (push/insert/extend/entry/... on Vec, String, VecDeque, HashMap, HashSet, BTree*). R5 (shared with C05-R1): no recursion - the stack does not grow with the number of items. R6: look-ahead loops at a varying offset live in the token functions only; parser-level loops consume as they go. R7: chunk_size is stored by its setter and the constructor only. R8 (shared with C01-R2): request_more / request / set_chunk_size are not called from parser or scanner code. R9: binary AIGER has no lines - the look-ahead of the 7-bit number decoder has a constant bound tested inside its loop.",
+        "The heap bound itself is a runtime quantity and is not decided. Decided are necessary structural conditions: every growth of a buffer that outlives the call, in code reachable from a streaming parser entry point, is dominated by a clear() of the same buffer; compaction in request_more is decided on live operands, moves the window to offset 0 and the buffer only grows when window + chunk does not fit. (Allocation sized by declared counts is C05-R5.) Also decided (R3, typestate over all token functions and streaming entry points): no second line end is looked at before the cursor moved past the first, so the look-ahead window - which the reader must keep - stays within one line (plus the AIGER comment section, one item by definition). R4 (shared with C05-R5): no allocation or reservation sized by a declared number. R1 treats every growing method of every std collection alike (push/insert/extend/entry/... on Vec, String, VecDeque, HashMap, HashSet, BTree*). R5 (shared with C05-R1): no recursion - the stack does not grow with the number of items. R6: look-ahead loops at a varying offset live in the token functions only; parser-level loops consume as they go. R7: chunk_size is stored by its setter and the constructor only. R8 (shared with C01-R2): request_more / request / set_chunk_size are not called from parser or scanner code. R9: binary AIGER has no lines - the look-ahead of the 7-bit number decoder has a constant bound tested inside its loop. R2 also: every read of the source sits behind the compaction decision (no second refill path that never realigns).",
         "DESIGN.md §4 C10",
     ),
     "C11": (
@@ -77,25 +77,25 @@ CLAIMS = {
     "C12": (
         "other",
         "call-graph SCC check, def-use provenance of map keys vs. redefinition tests (sibling agreement), guard/dominance and expression-shape rules over MIR",
-        "Functional equivalence of the renumbered circuit (all circuits, all assignments, all option combinations) is value-level and NOT decided; neither are the const-fold case analysis, hash-consing or completeness of the cycle detection. Decided structural necessary conditions: no recursion (explicit stack), every kind of literal used as a key of the renumbering map passes a redefinition test yielding LitAlreadyDefined, every error variant has a producer on the right path and is propagated with `?`, inputs sorted (descending) before a gate is hashed or pushed, a fresh code before every pushed gate, inputs < latches < gates numbering order, LitMap/transfer polarity xor discipline. R5/R6 additionally decide that the literal handed back from the gate arm is the stored literal xor the polarity difference, and that every constant fold is an identity of AND on every decision path (conditions evaluated over the six representative codes). R7: source-circuit literals and renumbered literals (same type) are never compared or used in each other's place (flow-sensitive numbering tags). R8: the definition table is keyed by literals as written and every question to it covers both polarities (key-expression classes: plain / flipped / normalised). R9: literals are compared for identity only with literals of the same kind (requested literal vs. a definition's output as written). R3: the `?` on a fallible step must be reached on every way on from the call. R8 also: the definition table is read-only after lit_defs built it. R10: every root section (latch next-states, outputs, bad-state, constraints, justice, fairness) is walked with a transfer per literal on every path on which initialize returns Ok (dominance of the loop header over every Ok, transfer dominates every latch, loops left towards Ok by exhaustion only), so an undefined root yields LitNotDefined and never a later unwrap panic.",
+        "Functional equivalence of the renumbered circuit (all circuits, all assignments, all option combinations) is value-level and NOT decided; neither are the const-fold case analysis, hash-consing or completeness of the cycle detection. Decided structural necessary conditions: no recursion (explicit stack), every kind of literal used as a key of the renumbering map passes a redefinition test yielding LitAlreadyDefined, every error variant has a producer on the right path and is propagated with `?`, inputs sorted (descending) before a gate is hashed or pushed, a fresh code before every pushed gate, inputs < latches < gates numbering order, LitMap/transfer polarity xor discipline. R5/R6 additionally decide that the literal handed back from the gate arm is the stored literal xor the polarity difference, and that every constant fold is an identity of AND on every decision path (conditions evaluated over the six representative codes). R7: source-circuit literals and renumbered literals (same type) are never compared or used in each other's place (flow-sensitive numbering tags). R8: the definition table is keyed by literals as written and every question to it covers both polarities (key-expression classes: plain / flipped / normalised). R9: literals are compared for identity only with literals of the same kind (requested literal vs. a definition's output as written). R3: the `?` on a fallible step must be reached on every way on from the call. R8 also: the definition table is read-only after lit_defs built it. R10: every root section (latch next-states, outputs, bad-state, constraints, justice, fairness) is walked with a transfer per literal on every path on which initialize returns Ok (dominance of the loop header over every Ok, transfer dominates every latch, loops left towards Ok by exhaustion only), so an undefined root yields LitNotDefined and never a later unwrap panic. R11: the constant cannot be redefined in either polarity (table seeded with literal 0 in front of every other insert, or tests excluding codes 0 and 1). R12: the conversion OrderedAig -> Aig spells out the positional names - input i = 2(i+1), latch i = 2(i+1+I), gate i = 2(i+1+I+L) - decided by affine execution of the conversion and its closures; every other field from the field of the same name. R13: the option setters of RenumberConfig store their parameter into the field of their own name.",
         "DESIGN.md §4 C12",
     ),
     "C13": (
         "other",
         "def-use discipline rules over MIR, sibling comparison of loop bodies, exhaustive abstract interpretation of the scanning behaviour over (offset label, byte class)",
-        "The numeric value of the SWAR kernel and of the accumulation loops is value-level and not decided. Decided: every overflowing_* flag reaches the one flag gating the returned Option and no other arithmetic touches the value; the five accumulation steps agree (x10, +/- (byte - '0')); the simple scanners' behaviour (digit class, +1 per digit, a lone minus is not passed over) equals the specification exactly for entry offsets 0 and 1; the fast/cold plumbing (cold tail calls, all-matched constants 8/7, continuation at offset+8, checked conversions, sign counted only if a digit followed). R1b: None is returned exactly on the paths where an overflowing_* step reported overflow or None came in, decided as a typestate independent of how the flag is stored. R5: the SWAR kernel's digit test is interpreted lane by lane (tables over all 256 byte values per lane, additions proved carry-free between lanes): a lane is zero exactly for '0'..='9'; only the multiply-and-shift reduction is assumed. R4 also: a fast variant returns without the byte-wise continuation only behind the test that fewer than 8 (7 after a minus) digit bytes of the word matched - what is or is not buffered behind the word never ends a number.",
+        "The numeric value of the SWAR kernel and of the accumulation loops is value-level and not decided. Decided: every overflowing_* flag reaches the one flag gating the returned Option and no other arithmetic touches the value; the five accumulation steps agree (x10, +/- (byte - '0')); the simple scanners' behaviour (digit class, +1 per digit, a lone minus is not passed over) equals the specification exactly for entry offsets 0 and 1; the fast/cold plumbing (cold tail calls, all-matched constants 8/7, continuation at offset+8, checked conversions, sign counted only if a digit followed). R1b: None is returned exactly on the paths where an overflowing_* step reported overflow or None came in, decided as a typestate independent of how the flag is stored. R5: the SWAR kernel's digit test is interpreted lane by lane (tables over all 256 byte values per lane, additions proved carry-free between lanes): a lane is zero exactly for '0'..='9'; only the multiply-and-shift reduction is assumed. R4 also: a fast variant returns without the byte-wise continuation only behind the test that fewer than 8 (7 after a minus) digit bytes of the word matched - what is or is not buffered behind the word never ends a number. R6 (= C09-R1): a None answer of the look-ahead, at which a digit run ends, is the end of the source (Interrupted retried in place, refills give up only at the end or on an error).",
         "DESIGN.md §4 C13",
     ),
     "C14": (
         "other",
         "unsafe-operation inventory over MIR with guard-dominance patterns per class, field confinement, wrap-before-check rule",
-        "Every operation that needs `unsafe` in the workspace (27 today) is classified and must satisfy its class's guard pattern (dominating comparison with the same operands, invariant window, validated or ASCII-class bytes); unknown classes are violations. Trusted fields are private and confined; unchecked advancing is `unsafe fn`; no possibly wrapped value is stored into a trusted field before the check that panics; an untrusted Read cannot enlarge the window. UB inside std/itoap, aliasing models and the SWAR kernels' byte classes are not decided. R3 also: advance(n) writes no trusted field before the test that may panic. R5 (shared with C02-R4): the buffer is shortened only in request_more, behind the guard that keeps the window inside it. R3 also: in request_more the window's bytes are moved before the first rebasing store (a mover that panics leaves the old, consistent window behind).",
+        "Every operation that needs `unsafe` in the workspace (27 today) is classified and must satisfy its class's guard pattern (dominating comparison with the same operands, invariant window, validated or ASCII-class bytes); unknown classes are violations. Trusted fields are private and confined; unchecked advancing is `unsafe fn`; no possibly wrapped value is stored into a trusted field before the check that panics; an untrusted Read cannot enlarge the window. UB inside std/itoap, aliasing models and the SWAR kernels' byte classes are not decided. R3 also: advance(n) writes no trusted field before the test that may panic. R5 (shared with C02-R4): the buffer is shortened only in request_more, behind the guard that keeps the window inside it. R3 also: in request_more the window's bytes are moved before the first rebasing store (a mover that panics leaves the old, consistent window behind). R6 (= C02-R7): the safe observers index the buffer with the cursor as it is at that moment, also after a refill inside the same call. The fact normaliser keeps a private helper whose address is taken, so an unguarded raw read behind a function pointer is seen by R1.",
         "DESIGN.md §4 C14",
     ),
     "C15": (
         "proof",
         "exhaustive abstract interpretation of MIR over the finite variant domain, compared with a specification table",
-        "All 15 combinators are interpreted abstractly over {Fallthrough, Res(Ok), Res(Err)} x {every outcome of the closure parameter}; the computed set of (closure calls with argument provenance, result variant with payload provenance) must equal the specification table row by row, and no outcome outside the table may exist. The domain is finite and enumerated completely, so this decides the property for the code as compiled to MIR.",
+        "All 15 combinators are interpreted abstractly over {Fallthrough, Res(Ok), Res(Err)} x {every outcome of the closure parameter}; the computed set of (closure calls with argument provenance, result variant with payload provenance) must equal the specification table row by row, and no outcome outside the table may exist. The domain is finite and enumerated completely, so this decides the property for the code as compiled to MIR. R2: the side condition of the table - a combinator reaches only the closure it was handed, From / Into, the modelled Result / Try methods and sibling combinators, and has no panic edge of its own (no state between calls, no divergence).",
         "DESIGN.md §4 C15",
     ),
     "C16": (
